@@ -60,7 +60,9 @@ fn check_one(tab: &[u8], off: usize, out: &mut Outcome, dig: &mut Fnv) -> bool {
     want.is_some()
 }
 
-struct Small;
+struct Small {
+    maxlen: u32,
+}
 impl Small {
     fn table(mut idx: u64) -> Vec<u8> {
         let mut len = 0u32;
@@ -77,10 +79,10 @@ impl Small {
 }
 impl Space for Small {
     fn name(&self) -> String {
-        "every table of length 0..=7 over {00,'a',C3,A9} (21845 tables) x every offset 0..=len+2 and {usize::MAX, usize::MAX/2}".into()
+        format!("every table of length 0..={} over {{00,'a',C3,A9}} ({} tables) x every offset 0..=len+2 and {{usize::MAX, usize::MAX/2}}", self.maxlen, self.size())
     }
     fn size(&self) -> u64 {
-        (0..=7).map(|l| 4u64.pow(l)).sum()
+        (0..=self.maxlen).map(|l| 4u64.pow(l)).sum()
     }
     fn describe(&self, idx: u64) -> Value {
         json!({"table_hex": hex(&Small::table(idx)), "offsets": "0..=len+2, usize::MAX/2, usize::MAX"})
@@ -138,10 +140,10 @@ pub fn build(tier: Tier) -> CheckDef {
         level: "model_checking",
         rule: "exhaustive small-scope enumeration: every (table, offset) pair of the stated finite space is executed on the real StringTable and compared with the reference definition (longest NUL-free run iff offset inside and a NUL follows; get = the same bytes iff valid UTF-8). non-trivial = table with at least one valid string; distinct = distinct set of returned strings".into(),
         assumptions: vec!["alphabet {NUL, ASCII, UTF-8 lead byte C3, continuation byte A9}".into()],
-        spaces: vec![Box::new(Small), Box::new(Large { step: tier.pick(64, 1) })],
+        spaces: vec![Box::new(Small { maxlen: tier.pick(8, 10) }), Box::new(Large { step: tier.pick(16, 1) })],
         abort_is_violation: false,
         hang_is_violation: false,
         exhaustive: true,
-        bounds: json!({"small_tables_max_len": 7, "large_table_nul_positions": tier.pick("every 64th", "all 4096")}),
+        bounds: json!({"small_tables_max_len": tier.pick(8, 10), "large_table_nul_positions": tier.pick("every 16th", "all 4096")}),
     }
 }
